@@ -475,17 +475,10 @@ func TestTwistedEdwards(t *testing.T) {
 	g := genTE(names)
 	checkSerial(rec, t, "te", ev.N(150, 5000), func(rt *rapid.T) {
 		c := g.Draw(rt, "case")
-		if sig := excludedTE(c.Curve, c.Op, c.Scalars); sig != "" {
+		if sig := excludedTECase(&c); sig != "" {
 			rec.Discarded("te:excluded shape of open finding " + sig)
 			return
 		}
-		if c.Op == "ScalarMul" {
-			if sig := excludedTEPoint(c.Curve, c.Op, c.Points[0], c.Scalars); sig != "" {
-				rec.Discarded("te:excluded shape of open finding " + sig)
-				return
-			}
-		}
-		rec.Begin("te", c)
 		rec.Report(rt, "te", c, runTE(c))
 	})
 }
@@ -927,19 +920,10 @@ func TestAdversaryTwistedEdwards(t *testing.T) {
 	})
 	checkSerial(rec, t, "te-adv", ev.N(120, 2500), func(rt *rapid.T) {
 		c := g.Draw(rt, "case")
-		if sig := excludedTE(c.Curve, "ScalarMul", []string{c.S}); sig != "" {
+		if sig := excludedTEAdvCase(&c); sig != "" {
 			rec.Discarded("te-adv:excluded shape of open finding " + sig)
 			return
 		}
-		if sig := excludedTEPoint(c.Curve, "ScalarMul", c.P, []string{c.S}); sig != "" {
-			rec.Discarded("te-adv:excluded shape of open finding " + sig)
-			return
-		}
-		if _, ok := open(SigTEZeroSubscalars); ok && teAltersHalfGCD(c.Strategy) {
-			rec.Discarded("te-adv:excluded shape of open finding " + SigTEZeroSubscalars)
-			return
-		}
-		rec.Begin("te-adv", c)
 		rec.Report(rt, "te-adv", c, runTEAdv(c))
 	})
 }
